@@ -559,6 +559,10 @@ func (fc *FnCtx) checkInvs(st *State, n int, tag string, extra map[string]Val, p
 			fc.assertNamed(st, "loopframe", fmt.Sprintf("loop%d.fresh-rows.%s", n, k), goal, "the loop writes slice elements only in arrays allocated inside the loop ("+k+")", pos)
 		}
 	}
+	if tag == "init" {
+		r := fc.root()
+		r.canaries = append(r.canaries, &Obligation{Name: fmt.Sprintf("%s#vacuity:loop%d.entry", r.key, n), Kind: "vacuity", Goal: "false", PC: append([]string(nil), st.pc...), Vacuity: true})
+	}
 	if tag == "preserve" {
 		r := fc.root()
 		r.canaries = append(r.canaries, &Obligation{Name: fmt.Sprintf("%s#vacuity:loop%d.body", r.key, n), Kind: "vacuity", Goal: "false", PC: append([]string(nil), st.pc...), Vacuity: true})
@@ -638,6 +642,46 @@ func (fc *FnCtx) loopFreshOnly(n int) map[string]bool {
 
 func (fc *FnCtx) havocLoop(st *State, body ast.Node, extraVars []types.Object) {
 	ms := fc.modSetOf(body)
+	// the ghost counters of channel operations are loop-carried when the body sends / receives
+	hasSend, hasRecv := false, false
+	ast.Inspect(body, func(x ast.Node) bool {
+		switch x := x.(type) {
+		case *ast.SendStmt:
+			hasSend = true
+		case *ast.UnaryExpr:
+			if x.Op == token.ARROW {
+				hasRecv = true
+			}
+		case *ast.RangeStmt:
+			if _, ok := fc.typeOf(x.X).Underlying().(*types.Chan); ok {
+				hasRecv = true
+			}
+		case *ast.CallExpr:
+			// contract-less callees of the same package are inlined and may send / receive as well
+			if g, ok := fc.calleeOf(x).(*types.Func); ok && g.Pkg() == fc.pkg.Types && fc.eng.contractFor(g, fc.pkg) == nil {
+				hasSend, hasRecv = true, true
+			}
+		}
+		return true
+	})
+	if hasSend {
+		c := fc.smt.fresh("sends", "Int")
+		if st.sends != "" {
+			st.assume("(>= " + c + " " + st.sends + ")")
+		} else {
+			st.assume("(>= " + c + " 0)")
+		}
+		st.sends = c
+	}
+	if hasRecv {
+		c := fc.smt.fresh("recvs", "Int")
+		if st.recvs != "" {
+			st.assume("(>= " + c + " " + st.recvs + ")")
+		} else {
+			st.assume("(>= " + c + " 0)")
+		}
+		st.recvs = c
+	}
 	if n := fc.havocFor; n > 0 && len(fc.loopFreshOnly(n)) > 0 {
 		only := fc.loopFreshOnly(n)
 		if fc.freshRows == nil {
